@@ -680,7 +680,7 @@ def reached_under(body, pt, start, leaf, stops, avoid=(), strict=False):
     return out
 
 
-def walk_concrete(body, c, start, stops, discr_val=None, call_val=None, region=None, env0=None, limit=6000):
+def walk_concrete(body, c, start, stops, discr_val=None, call_val=None, region=None, env0=None, limit=6000, avoid=()):
     """Blocks of `stops` reached from `start` in a concrete walk: plain locals carry small integers (constants, copies, `!`, `&`, `|`,
     `^`, `==`, `!=` of known values; `discr_val(place)` for a discriminant read, `call_val(block)` for a call result), a test on a known
     value takes its edge, a test on an unknown value takes all.  Over-approximates reachability under the given valuation (so "not
@@ -744,7 +744,7 @@ def walk_concrete(body, c, start, stops, discr_val=None, call_val=None, region=N
         else:
             succs = [y for y in c.succ[bb] if not body.blocks[y].cleanup]
         for y in succs:
-            if y is None or y == start or (region is not None and y not in region):
+            if y is None or y == start or y in avoid or (region is not None and y not in region):
                 continue
             stack.append((y, env))
     return out
